@@ -11,7 +11,8 @@ Direct oracle (the property statement, computed here without the code under test
 row is built from the *trees* the sidecar strings were generated from — referenced columns are
 substituted at their references or dropped with the group that only held them, the remaining columns are
 listed in code-point order of their names — and compared up to blanks around delimiters; every output
-must pass the real `check_delimiter_issues_in_hed_string`; frame (values and dtypes) and `loaded_dict` are
+must pass the real `check_delimiter_issues_in_hed_string` and, whenever the inputs have balanced
+parentheses (depth never negative, zero at the end), have balanced parentheses too; frame (values and dtypes) and `loaded_dict` are
 compared before/after.
 """
 import copy
@@ -39,6 +40,7 @@ THEOREMS = [
     "HedVerif.C06.old_numeric_name_counterexample",
     "HedVerif.C06.old_value_empty_cell_counterexample",
     "HedVerif.C06.join_wellformed",
+    "HedVerif.C06.remover_keeps_balance",
 ]
 BUDGET = {"quick": 900, "thorough": 3600}
 
@@ -55,6 +57,49 @@ def checker():
     from hed.validator.util.string_util import StringValidator
     sv = StringValidator()
     return lambda s: not sv.check_delimiter_issues_in_hed_string(s)
+
+
+def balanced(s):
+    """parentheses balanced: running depth never negative, zero at the end"""
+    d = 0
+    for ch in s:
+        if ch == "(":
+            d += 1
+        elif ch == ")":
+            d -= 1
+            if d < 0:
+                return False
+    return d == 0
+
+
+def nested_corpus(ref, max_leaves, max_depth):
+    """every forest with <= max_leaves leaves over {R, ref} (at least one ref), groups nested up to max_depth,
+    rendered with ', ' and with ',': references with their own parentheses first / middle / last in an
+    enclosing group, nested twice, ... e.g. '(({c}), R)', '(R, ({c}))', '((({c})), R)', 'R, (({c}), (R, R))'"""
+    def forests(n, depth):      # lists of items using exactly n leaves
+        if n == 0:
+            yield []
+            return
+        for k in range(1, n + 1):           # first item uses k leaves
+            for first in items(k, depth):
+                for rest in forests(n - k, depth):
+                    yield [first] + rest
+
+    def items(k, depth):
+        if k == 1:
+            yield "R"
+            yield ref
+        if depth > 0:
+            for inner in forests(k, depth - 1):
+                yield "(" + "\x00".join(inner) + ")"
+    out = set()
+    for n in range(1, max_leaves + 1):
+        for f in forests(n, max_depth):
+            t = "\x00".join(f)
+            if ref in t:
+                out.add(t.replace("\x00", ", "))
+                out.add(t.replace("\x00", ","))
+    return sorted(out)
 
 
 def whole_tag(s, ref):
@@ -121,6 +166,8 @@ def check_replace(ctx, texts, name, value, ok, model=None):
         elif m_ok != ok(out):
             ctx.disagree("Assemble.delimOk = check_delimiter_issues_in_hed_string", {"text": out}, m_ok, ok(out))
         # oracle
+        if balanced(t) and (removal or balanced(value)) and not balanced(out):
+            ctx.violation("balanced-parentheses-stay-balanced", case, {"out": out})
         if removal:
             if ref in out:
                 ctx.violation("na-reference-disappears", case, {"out": out})
@@ -144,6 +191,11 @@ def part_a(ctx, ok):
         for lo in range(0, len(texts), 60000):
             check_replace(ctx, texts[lo:lo + 60000], "c", value, ok)
             ctx.check_time()
+    nested = nested_corpus("{c}", 3 if ctx.quick() else 4, 3)
+    for value in ("n/a", "", "Blue", "(Blue, Big)"):
+        check_replace(ctx, nested, "c", value, ok)
+    ctx.check_time()
+    ctx.extra["replace_ref_nested_strings"] = len(nested)
     m = 5 if ctx.quick() else 6
     for name in ("1", "0", "12", "k-1", "a.b"):      # digits-only names are regex quantifiers when not escaped
         tx = corpus("{" + name + "}", m)
@@ -213,7 +265,7 @@ def gen_tree(rng, leaves, depth=0):
 
 
 PLACEMENTS = ["alone", "first", "middle", "last", "paren-first", "paren-last", "paren-middle", "sole-group",
-              "nested-sole", "random"]
+              "nested-sole", "own-group-first", "own-group-middle", "nested-twice", "deep-mixed", "random"]
 
 
 def place(rng, how, refs, tagpool):
@@ -238,8 +290,16 @@ def place(rng, how, refs, tagpool):
         return [("grp", [t()] + r + [t()])]
     if how == "sole-group":
         return ([t()] if rng.random() < 0.5 else []) + [("grp", r)] + ([t()] if rng.random() < 0.5 else [])
-    if how == "nested-sole":
+    if how == "nested-sole":                 # (R, ({c}))
         return [("grp", [t(), ("grp", r)])]
+    if how == "own-group-first":             # (({c}), R)
+        return [("grp", [("grp", r), t()])]
+    if how == "own-group-middle":            # (R, ({c}), R)
+        return [("grp", [t(), ("grp", r), t()])]
+    if how == "nested-twice":                # ((({c})), R)
+        return [("grp", [("grp", [("grp", r)]), t()])]
+    if how == "deep-mixed":                  # A, (({c}), (B, C))
+        return [t(), ("grp", [("grp", r), ("grp", [t(), t()])])]
     leaves = [t() for _ in range(rng.randint(0, 3))] + r
     rng.shuffle(leaves)
     return gen_tree(rng, leaves)
@@ -459,6 +519,10 @@ def judge_pair(ctx, ok, case, spec, impl, model):
                   for c in impl["columns"] if c in spec and spec[c]["kind"] in ("categorical", "value")]
         sig = SIG_ADJ if any(isinstance(v, str) and re.search(r"\{" + re.escape(r) + r"\}[\s,()]*\{" + re.escape(r) + r"\}", v)
                              for v in chosen for r in na_ref) else None
+        # templates and cells are generated with balanced parentheses: the assembled row must be balanced too
+        if not balanced(got) and all(balanced(x) for x in rows[i]) and all(isinstance(v, str) and balanced(v)
+                                                                            for v in chosen if v is not None):
+            ctx.violation("row-parentheses-balanced", {**case, "row": i}, {"got": got, "expected": exp})
         if norm(got) != norm(exp):
             ctx.violation("row-is-the-prescribed-annotation", {**case, "row": i}, {"got": got, "expected": exp},
                           signature=sig)
